@@ -346,6 +346,18 @@ def gen_delineate_area(rng, tier):
     return out
 
 
+def gen_area_reach(rng, tier):
+    """inputs of the functional contract: vector pre-filled with -1 (as grid.py does), valid outlet and inlets, buffer large enough or not"""
+    fdc = flowdircode(); out = []
+    for (nr, nc, fd) in flow_grids(rng, tier, n_random=30)[::3] + acyclic_grids(rng, tier, n=40):
+        n = nr * nc
+        outlet = rng.randrange(n)
+        inl = [rng.randrange(n) for _ in range(rng.choice([0, 0, 1, 2]))]
+        for nval in (n + 2, n + 1, rng.randint(1, n + 1)):
+            out.append([nr, nc, fdc, fd, outlet, len(inl), inl, nval, [-1] * nval, [7] * nval, [7] * nval])
+    return out
+
+
 def gen_boundary(rng, tier):
     out = []
     for (nr, nc, _, _, _) in small_grids(rng, tier)[::3]:
@@ -620,6 +632,7 @@ def kernels(*names):
     tab['c_inside#evenodd'] = (INSIDE, 'c_inside#evenodd', gen_inside_evenodd)
     tab['c_crps#decomp'] = (CRPS, 'c_crps#decomp', gen_crps_decomp)
     tab['c_voronoi#nearest'] = (GRID, 'c_voronoi#nearest', gen_voronoi_nearest)
+    tab['c_delineate_area#reach'] = (CATCH, 'c_delineate_area#reach', gen_area_reach)
     tab['c_var2h#average'] = (VAR2H, 'c_var2h#average', [g for r_, f_, g in ALL_KERNELS if f_ == 'c_var2h'][0])
     return [tab[n] for n in names]
 
@@ -685,3 +698,28 @@ def monitors_in_child(rec, names):
                               witness=dict(python=True, source='bounded monitor', monitor=nm, traceback=traceback.format_exc()[-2500:]))
             else:
                 rec.broken.append('monitor %s crashed: %s' % (nm, traceback.format_exc()[-1800:]))
+
+
+def lean_lemma(r, tier, fname, theorem, fn, note, assumed_note):
+    """an argument that is external to the SMT proofs, proved in lean/<fname>; the Lean kernel re-checks it in the thorough tier (cold start
+    of Mathlib: about two minutes); the quick tier lists it as assumed"""
+    import os, subprocess, time
+    here = os.path.dirname(os.path.dirname(os.path.abspath(__file__)))
+    src = os.path.join(here, 'lean', fname)
+    if tier != 'thorough':
+        r.assumptions.append(assumed_note)
+        return
+    t0 = time.time()
+    try:
+        cp = subprocess.run(['lean', src], capture_output=True, text=True, timeout=1500, cwd=os.path.join(here, 'lean'))
+        out = (cp.stdout + cp.stderr)
+        ok = cp.returncode == 0 and 'error' not in out and 'sorry' not in out and 'sorry' not in open(src).read().split('-/', 1)[-1]
+    except Exception as e:
+        ok = False; out = repr(e)
+    rec = dict(id='lean/%s/%s' % (fname, theorem), kind='lemma', fn=fn, line=0, note=note, text=note, file='lean/' + fname,
+               status='unsat' if ok else 'unknown', backend='lean 4 + Mathlib', time=time.time() - t0, reason='' if ok else out[-500:])
+    r.vcs.append(rec)
+    if ok:
+        r.by_backend['lean 4 + Mathlib'] += 1
+    else:
+        r.undecided.append('lean/%s: the Lean proof did not check: %s' % (fname, out[-600:]))
